@@ -75,9 +75,25 @@ Theorem C14_code_line_without_slash : forall d l ls,
   scan_lines the_params d re_RUST_COMMENT_PATTERN (l :: ls) = false.
 Proof. exact scan_code_line. Qed.
 
-(* NOT proved: lines that hold a comment after code ("x(); // breadlog:ignore" -- the unanchored regex
-   finds that comment too and the directive applies), and several comments on one line; covered by
-   the oracle campaign and the enumerated placements. *)
+(* a line comment AFTER code on the nearest non-blank line ("x(); // breadlog:ignore"): the unanchored
+   regex finds it (leftmost match: the code before it holds no slash) and the directive applies exactly
+   as for a comment on a line of its own *)
+Theorem C14_trailing_line_comment_directive : forall d l pre body ls,
+  hd_error d <> Some 47 ->
+  trim is_ws_tab l = (pre ++ [47; 47] ++ body)%list -> pre <> [] ->
+  forallb (fun c => negb (c =? 47)) pre = true -> body <> [] -> dots body = true ->
+  scan_lines the_params d re_RUST_COMMENT_PATTERN (l :: ls) = text_eqb (norm body) d.
+Proof. exact directive_on_trailing_line_comment. Qed.
+
+Theorem C14_trailing_block_comment_directive : forall d l pre body ls,
+  hd_error d <> Some 47 ->
+  trim is_ws_tab l = (pre ++ [47; 42] ++ body ++ [42; 47])%list -> pre <> [] ->
+  forallb (fun c => negb (c =? 47)) pre = true -> body <> [] -> dots body = true ->
+  scan_lines the_params d re_RUST_COMMENT_PATTERN (l :: ls) = text_eqb (norm body) d.
+Proof. exact directive_on_trailing_block_comment. Qed.
+
+(* NOT proved: several comments on one line, a block comment followed by more code, code that itself
+   contains a slash before the comment; covered by the oracle campaign and the enumerated placements. *)
 
 (* non-vacuity on real text through the generated grammar and the translated comment regex *)
 Example C14_nonvacuous :
@@ -102,3 +118,5 @@ Print Assumptions C14_block_comment_directive.
 Print Assumptions C14_dot_class.
 Print Assumptions C14_directives_apply.
 Print Assumptions C14_code_line_without_slash.
+Print Assumptions C14_trailing_line_comment_directive.
+Print Assumptions C14_trailing_block_comment_directive.
